@@ -70,7 +70,7 @@ impl Default for GenCfg {
             noise_pct: 2,
             allow_scan: true,
             allow_scoped: true,
-            allow_print: false,
+            allow_print: true,
             allow_mutable_scoped: false,
             allow_shorthands: true,
             allow_globals: true,
@@ -573,7 +573,7 @@ impl<'a> Gen<'a> {
                         return Some(json!({"k": kw, "var": {"k": "svar", "scope": {"k": "cap", "name": cap}, "name": name}, "value": e}));
                     }
                 }
-                let mutable = self.rng.chance(1, 4);
+                let mutable = self.rng.chance(1, 3);
                 let name = self.fresh_name("v");
                 self.declare(Var { name: name.clone(), ty, local: l && !mutable, mutable, quant: q });
                 Some(json!({"k": if mutable { "var" } else { "let" }, "var": {"k": "var", "name": name}, "value": e}))
@@ -720,11 +720,26 @@ impl<'a> Gen<'a> {
                 Some(json!({"k": "scan", "value": subj, "arms": arms}))
             }
             _ => {
-                if self.cfg.allow_print && self.rng.chance(1, 2) {
+                if self.cfg.allow_print && self.rng.chance(1, 3) {
                     let (e, _, _) = self.expr(Ty::Str, false, 1);
                     Some(json!({"k": "print", "values": [{"k": "str", "v": "p"}, e]}))
                 } else {
-                    None
+                    // assignment to a mutable variable, or an attribute on an edge created in this block
+                    let muts: Vec<Var> = self.visible().into_iter().filter(|v| v.mutable).collect();
+                    if !muts.is_empty() && self.rng.chance(1, 2) {
+                        let v = self.rng.pick(&muts).clone();
+                        let (e, _, _) = self.expr(v.ty, false, 0);
+                        Some(json!({"k": "set", "var": {"k": "var", "name": v.name}, "value": e}))
+                    } else if !self.edges_done.is_empty() {
+                        let (a, b) = self.rng.pick(&self.edges_done).clone();
+                        let key = format!("{}->{}", a, b);
+                        let attrs = self.attrs(&key);
+                        let a: J = serde_json::from_str(&a).unwrap();
+                        let b: J = serde_json::from_str(&b).unwrap();
+                        Some(json!({"k": "attre", "src": a, "dst": b, "attrs": attrs}))
+                    } else {
+                        None
+                    }
                 }
             }
         }
